@@ -110,7 +110,6 @@ func (e *Engine) verifIntrinsic(fn *ssa.Function, args []Value) (Value, bool) {
 	case "CheckFrozen":
 		return nil, true
 	case "Observe":
-		e.observed = append(e.observed, dump(args[0], 0))
 		return nil, true
 	case "Reach":
 		e.sh.reachHit(e.entryName, e.concreteStr(args[0]))
@@ -223,6 +222,9 @@ func (e *Engine) activeExcuses(key string) (names []string, terms []*Term) {
 // (b) which known findings are hit. It records one model per group.
 func (e *Engine) report(kind, msg string, neg *Term) {
 	fn, stack := e.blameFunc()
+	if kind == "assert" {
+		fn = e.entryName // assertions live in the harness: the entry names them
+	}
 	key := kind + ":" + msg + "@" + fn
 	names, terms := e.activeExcuses(key)
 	notKnown := tTrue
